@@ -226,6 +226,21 @@ def reject_case(rep):
     d = base()
     d['sweeper_params']['QI'] = 'NONSENSE'
     rep.side('unknown-preconditioner', _raises(lambda: mk(d), (ParameterError, ValueError, KeyError, NotImplementedError)) is True)
+    # a second preconditioner of the same kind on one sweeper (multi_implicit: Q1, Q2) and a later request on a constructed sweeper: an unknown name is
+    # rejected there too (whatever valid name was requested before)
+    from pySDC.implementations.sweeper_classes.multi_implicit import multi_implicit
+    from harness.sweepspec import FMulti
+
+    for q1, q2, okexp in (('LU', 'IE', True), ('LU', 'NONSENSE', False), ('NONSENSE', 'LU', False), ('IE', 'lu', False), ('LU', '', False)):
+        d = dict(problem_class=FMulti, problem_params={'A1': [[-1.0]], 'A2': [[-0.5]]}, sweeper_class=multi_implicit, sweeper_params={'num_nodes': 2, 'quad_type': 'RADAU-RIGHT', 'Q1': q1, 'Q2': q2},
+                 level_params={'dt': 0.1, 'restol': 1e-8}, step_params={'maxiter': 2})
+        raised = _raises(lambda: mk(d), (ParameterError, ValueError, KeyError, NotImplementedError))
+        rep.side(f'unknown-preconditioner/multi_implicit/Q1={q1!r}/Q2={q2!r}', (raised is False) if okexp else (raised is True))
+    ctl_ = mk(base())
+    sw_ = ctl_.MS[0].levels[0].sweep
+    for meth in ('get_Qdelta_implicit', 'get_Qdelta_explicit'):
+        for bad in ('NONSENSE', 'lu', 'EEE'):
+            rep.side(f'unknown-preconditioner/{meth}/{bad!r}-after-a-valid-request', _raises(lambda: getattr(sw_, meth)(bad), (ParameterError, ValueError, KeyError, NotImplementedError)) is True)
     d = base(2)
     d['level_params']['nsweeps'] = [1, 2]
     rep.side('several-sweeps-on-coarsest-level', _raises(lambda: mk(d), (ControllerError,)) is True)
